@@ -178,7 +178,7 @@ def check_derivs(deriv_path, codelen_path, uniq, stats):
     want = n * (n + 1) // 2
     for i, r in enumerate(drows):
         if len(r) != want:
-            probs.append(('derivs-width', i, len(r), want))
+            probs.append(('derivs-width', 'derivs', i, len(r), want))
             break
     stats['derivs_rows_checked'] = stats.get('derivs_rows_checked', 0) + len(drows)
     return probs
@@ -220,10 +220,10 @@ def check_identity_variants(matches_path, codelen_path, deriv_path, allf, uniq, 
         nll_m, cl_m, p_m = mrows[i][0], mrows[i][1], mrows[i][3:3 + k]
         stats['identity_variants_checked'] = stats.get('identity_variants_checked', 0) + 1
         if not (math.isfinite(cl_m) and abs(cl_m - want) <= 1e-4 + 1e-5 * abs(want)):
-            probs.append(('identity-variant-codelen', i, f, cl_m, want))
+            probs.append(('identity-variant-codelen', 'matches', i, f, cl_m, want))
             break
         if not close(nll_m, nll_u, rel=1e-6) or any(not close(a, b, rel=1e-6, abs_=0.0) for a, b in zip(p_m, p_u)):
-            probs.append(('identity-variant-row', i, f, [nll_m] + p_m, [nll_u] + p_u))
+            probs.append(('identity-variant-row', 'matches', i, f, [nll_m] + p_m, [nll_u] + p_u))
             break
     return probs
 
